@@ -59,8 +59,7 @@ def _run_config(args):
         stats["programs"] += 1
         n = s0["nsusp"]
         runs = [(None, ev0, s0)]
-        if s0["how"] != "done":
-            stats["errors"].append("%s %s: program does not run to completion un-cancelled (%s)" % (",".join(prog), pool, s0["how"]))
+        # a program that does not run to completion un-cancelled is not a harness error: its trace is rejected (Ended.outcome)
         for k in range(n + 1):
             try:
                 c = Case(wd, prog, pool=pool, mode=mode, post=post)
